@@ -207,6 +207,20 @@ CHECKS["C16"] = dict(
          "crashes. The theorems are about the operation shapes the code emits today (one write per log line, seek/truncate/write/flush); "
          "a different shape is reported as a broken correspondence.")
 
+CHECKS["C08"] = dict(
+    technique="Coq proof of a generic to_dict/JSON/registry/from_dict round trip over a nested-object model (Model/Serial.v, "
+              "Proofs/SerialProofs.v) and an executable model of Python's import protocol (Model/Import.v) + a TRANSLATOR that regenerates the "
+              "class schemas and the module import graph from /repo's current source on every run (Gen/Schema.v, Gen/ImportGraph.v); the "
+              "finite obligations over the regenerated data are re-proved by vm_compute; cross-validated by behavioural round trips",
+    text="Generic theorem (any schema, any nesting depth): an object built from classes satisfying class_ok, nested through fields for "
+         "which from_dict asks the registry for the right protocol, is rebuilt exactly. Regenerated obligations on the current source: "
+         "every concrete serialisable class found by introspection satisfies class_ok (registered under the name it writes, every "
+         "constructor parameter and documented tunable written, nothing written that the constructor refuses); every nested field's "
+         "protocol is inhabited; every module of the package can be the first import of a fresh interpreter (the import protocol is "
+         "run on the module-level import statements). Simulation-level settings are covered by the behavioural leg only.",
+    ref="§4 C08",
+    note=COMMON_NOTE + " Trusted additionally: the translator (introspection + ast in a fresh interpreter, fail-closed); ASE's JSON codec.")
+
 NA_REASON = "check not built yet in this round (see DESIGN.md §8 order of construction); no weaker technique substituted"
 
 
